@@ -223,7 +223,12 @@ impl<'a> Parser<'a> {
             TokenKind::Enum => Ok(Statement::EnumDeclaration(Box::new(self.parse_enum()?))),
             TokenKind::Declare => self.parse_declare_statement(),
             // Module declarations
-            TokenKind::Import => Ok(Statement::Import(Box::new(self.parse_import()?))),
+            TokenKind::Import => {
+                if let Some(alias) = self.try_parse_import_alias()? {
+                    return Ok(alias);
+                }
+                Ok(Statement::Import(Box::new(self.parse_import()?)))
+            }
             TokenKind::Export => Ok(Statement::Export(Box::new(self.parse_export()?))),
             TokenKind::Namespace | TokenKind::Module => {
                 // Check if this is a namespace declaration or an expression
@@ -1881,6 +1886,46 @@ impl<'a> Parser<'a> {
     }
 
     // Module declarations (stubs)
+
+    /// TypeScript import alias `import Q = A.B.C;`: a variable bound to the named entity
+    fn try_parse_import_alias(&mut self) -> Result<Option<Statement>, JsError> {
+        let start = self.current.span;
+        let checkpoint = self.lexer.checkpoint();
+        let saved = self.current.clone();
+        self.advance(); // consume import
+        let is_alias = self.check_identifier() && self.peek_is(&TokenKind::Eq);
+        if !is_alias {
+            self.lexer.restore(checkpoint);
+            self.current = saved;
+            return Ok(None);
+        }
+        let id = self.parse_identifier()?;
+        self.require_token(&TokenKind::Eq)?;
+        let mut entity = Expression::Identifier(self.parse_identifier()?);
+        while self.match_token(&TokenKind::Dot) {
+            let property = self.parse_identifier()?;
+            let span = self.span_from(start);
+            entity = Expression::Member(Box::new(MemberExpression {
+                object: Rc::new(entity),
+                property: MemberProperty::Identifier(property),
+                computed: false,
+                optional: false,
+                span,
+            }));
+        }
+        self.expect_semicolon()?;
+        let span = self.span_from(start);
+        Ok(Some(Statement::VariableDeclaration(VariableDeclaration {
+            kind: VariableKind::Var,
+            declarations: Rc::from([VariableDeclarator {
+                id: Pattern::Identifier(id),
+                type_annotation: None,
+                init: Some(Rc::new(entity)),
+                span,
+            }]),
+            span,
+        })))
+    }
 
     fn parse_import(&mut self) -> Result<ImportDeclaration, JsError> {
         let start = self.current.span;
